@@ -54,6 +54,9 @@ var Profiles = map[string]*Profile{
 	"C10": {Name: "C10", MaxOps: 25, ForceAsync: true, AsyncOracles: true, UniqueMax: 1, IndexPct: 20, CasePct: 10,
 		W: map[string]int{"save": 30, "update": 30, "del": 14, "sdel": 5, "delall": 2, "flush": 10, "sleep": 8, "await": 12, "reopen": 5, "sweep": 3, "reads": 6, "create": 2, "many": 6, "bulk": 2}},
 	"C11": {Name: "C11", MaxOps: 10, UniqueMax: 1, IndexPct: 30, CasePct: 10, W: map[string]int{"save": 40, "update": 20, "del": 8, "sweep": 1, "reads": 1, "reopen": 2, "many": 6}},
+	"C12": {Name: "C12", MaxOps: 20, UniqueMax: 1, IndexPct: 35, CasePct: 15, W: map[string]int{"sweep": 12, "getabsent": 6, "reads": 8, "flush": 3, "sleep": 3, "await": 2}},
+	"C17": {Name: "C17", MaxOps: 20, UniqueMax: 1, IndexPct: 25, CasePct: 10, W: map[string]int{"create": 30, "save": 30, "update": 25, "del": 8, "sleep": 8, "flush": 4, "reads": 8, "sweep": 3, "reopen": 4, "await": 4}},
+	"C19": {Name: "C19", MaxOps: 8, UniqueMax: 1, IndexPct: 30, CasePct: 10, W: map[string]int{"save": 40, "update": 15, "del": 5, "sweep": 4, "reads": 2, "many": 5}},
 	"C13": {Name: "C13", MaxOps: 25, UniqueMax: 1, IndexPct: 60, CasePct: 10, W: map[string]int{"sweep": 20}},
 	"C14": {Name: "C14", MaxOps: 25, UniqueMax: 1, IndexPct: 20, CasePct: 10, Scribble: true, W: map[string]int{"sweep": 8, "reads": 10, "resave": 10}},
 	"C15": {Name: "C15", MaxOps: 20, UniqueMax: 1, IndexPct: 20, CasePct: 50, W: map[string]int{"many": 15, "bulk": 10}},
@@ -75,14 +78,14 @@ var Owns = map[string][]string{
 	"C09": {"deadlock"},
 	"C10": {"async", "read", "layout", "deadlock"},
 	"C11": {"control", "repair"},
-	"C12": {"async"},
+	"C12": {"diff"},
 	"C13": {"order"},
 	"C14": {"alias"},
 	"C15": {"hooks"},
 	"C16": {"case"},
-	"C17": {"guard"},
+	"C17": {"guard", "read", "async", "layout", "deadlock", "reject"},
 	"C18": {"layout"},
-	"C19": {"args"},
+	"C19": {"args", "mangle"},
 	"C20": {"snapshot"},
 }
 
@@ -185,6 +188,12 @@ func Run(p Params) *Result {
 		r = RunConc(p)
 	case "repair":
 		r = RunRepair(p)
+	case "diff":
+		r = RunDiff(p)
+	case "guard":
+		r = RunGuard(p)
+	case "mangle":
+		r = RunMangle(p)
 	default:
 		return &Result{Params: p, Incon: "unknown scenario " + p.Scenario}
 	}
